@@ -264,3 +264,39 @@ Section Cache.
   Fixpoint c_final (s : snap) (ops : list cop) : snap :=
     match ops with [] => s | o :: r => c_final (snd (c_step s o)) r end.
 End Cache.
+
+(* ---------------------------------------------------------------- (e) moving the timestamp of a snapshot that has met locks *)
+(* The snapshot object: version, cache, and the set of transactions it decided to ignore
+   (KVSnapshot.resolvedLocks).  SetSnapshotTS clears the cache AND that set on every call, whatever
+   the direction of the move (also for a pipelined snapshot: the own start ts registered by
+   SetPipelined is wiped as well — that is what the code does).  PFinish t: the owner of transaction
+   t finishes it (a lock-state change between two reads of the program). *)
+Record rsnap := mkRS { rv : N; rcache : option (list (key * value)); rrs : list N }.
+Inductive pop := PGet (k : key) | PSetTS (ts : N) | PFinish (t : N).
+
+Definition finish_tx (tx : list (N * tstate)) (t : N) : list (N * tstate) :=
+  match tx_get tx t with Some st => tx_set tx t (TFinished (eventual st)) | None => tx end.
+
+Definition rs_lookup (s : rsnap) (k : key) : option value :=
+  match rcache s with Some c => c_lookup c k | None => None end.
+
+(* the answer of a Get: Some (Some v) value, Some None not found, None = no answer (other op, or out of fuel) *)
+Definition p_step (fuel : nat) (st : world * rsnap) (o : pop) : option (option value) * (world * rsnap) :=
+  let '(w, s) := st in
+  match o with
+  | PGet k =>
+      match rs_lookup s k with
+      | Some v => (Some (opt_of v), (w, s))
+      | None =>
+          match get fuel w (rrs s) (rv s) k with
+          | (Some o, w', rs') =>
+              let o' := norm o in
+              let c' := if rv s =? maxts then rcache s
+                        else Some ((k, val_of o') :: match rcache s with Some c => c | None => [] end) in
+              (Some o', (w', mkRS (rv s) c' rs'))
+          | (None, w', rs') => (None, (w', mkRS (rv s) (rcache s) rs'))
+          end
+      end
+  | PSetTS ts => (None, (w, mkRS ts None []))
+  | PFinish t => (None, (mkWorld (w_keys w) (finish_tx (w_txns w) t), s))
+  end.
